@@ -30,7 +30,7 @@ ASSUMPTIONS = [
     "symbolic program alive at a time so that they test what the property states rather than F7",
 ]
 REQUIRED_LABELS = {"all": ["free", "measured", "decomposed_symbolic", "optimised_symbolic", "remeasure", "use_before_measure", "unbound", "unknown_name",
-                           "target:gaussian_unitary", "target:bosonic", "fn:atan2"]}
+                           "target:gaussian_unitary", "target:bosonic", "fn:atan2", "two_segments", "optimised_measured"]}
 
 FAMS = ["Dgate", "Sgate", "Rgate", "BSgate", "S2gate", "MZgate", "Xgate", "Zgate", "Pgate", "CXgate", "CZgate", "LossChannel", "ThermalLossChannel",
         "Coherent", "Squeezed", "DisplacedSqueezed", "Thermal", "sMZgate"]
@@ -201,11 +201,11 @@ def numeric_twin(ops_, env):
     return out
 
 
-def build_symbolic(n, ops_):
+def build_symbolic(n, ops_, parent=None):
     import strawberryfields as sf
     from strawberryfields import ops
 
-    prog = sf.Program(n)
+    prog = sf.Program(n) if parent is None else sf.Program(parent)
     with prog.context as q:
         for o in ops_:
             ps = [to_sympy(p, prog, q) if isinstance(p, list) else spec.dec_param(p) for p in o[1]]
@@ -310,10 +310,20 @@ def meas_case(draw):
     steps = []
     vals = {}
     pre = draw(gen.op_list(n, ["Sgate", "BSgate", "Dgate", "Rgate"], "ps", 1, 3))
-    for _ in range(draw(st.integers(1, 5))):
-        k = draw(st.sampled_from(["measure", "measure", "use", "use", "reprepare", "gate"]))
-        if k == "measure":
-            m = draw(st.integers(0, n - 1))
+    # two-segment variant: the first segment (no feed-forward in it, see F7) measures / re-prepares / re-measures, the second
+    # segment, built with Program(first) and run on the same engine, uses the outcomes
+    two_seg = draw(st.integers(0, 3)) == 0
+    n1 = draw(st.integers(1, 4)) if two_seg else 0
+    cut = None
+    for it in range(n1 + draw(st.integers(1, 5))):
+        if two_seg and it == n1:
+            cut = len(steps)
+        if it < n1:
+            k = draw(st.sampled_from(["measure", "measure", "remeasure", "remeasure", "reprepare", "gate"]))
+        else:
+            k = draw(st.sampled_from(["measure", "measure", "remeasure", "use", "use", "use", "use_twice", "reprepare", "gate"]))
+        if k in ("measure", "remeasure"):
+            m = draw(st.sampled_from(sorted(vals))) if k == "remeasure" and vals else draw(st.integers(0, n - 1))
             v = draw(gen.fl(-0.8, 0.8))
             steps.append(["MeasureHomodyne", [draw(st.sampled_from([0.0, 0.7]))], [m], {"select": v}])
             vals[m] = v
@@ -335,12 +345,24 @@ def meas_case(draw):
                 ps = [e]
             modes = [tgt] if fam != "BSgate" else [tgt, [j for j in range(n) if j != tgt][0]]
             steps.append([fam, ps, modes, {"H": True} if draw(st.integers(0, 3)) == 0 else {}])
+        elif k == "use_twice":
+            # two neighbouring gates of one family on one mode, both fed by the same measured mode (what an optimiser may try to merge)
+            srcs = sorted(vals) or list(range(n))
+            src = draw(st.sampled_from(srcs))
+            tgt = draw(st.sampled_from([j for j in range(n) if j != src] or [src]))
+            fam = draw(st.sampled_from(["Rgate", "Xgate", "Zgate", "Dgate"]))
+            for _k in range(2):
+                e = draw(expr([["meas", src]], 1))
+                if not symbols_of(e):
+                    e = ["mul", 0.5, ["meas", src]]
+                steps.append([fam, [["fn", "Abs", e], 0.3] if fam == "Dgate" else [e], [tgt], {}])
         elif k == "reprepare":
             m = draw(st.integers(0, n - 1))
             steps.append(["Squeezed", [draw(gen.fl(-0.5, 0.5)), 0.3], [m], {}])
         else:
             steps += draw(gen.op_list(n, ["BSgate", "Rgate"], "ps", 1, 1))
-    return {"n": n, "pre": pre, "steps": steps, "target": draw(st.sampled_from(["default", "default", "gaussian", "bosonic"]))}
+    return {"n": n, "pre": pre, "steps": steps, "target": draw(st.sampled_from(["default", "default", "gaussian", "bosonic"])),
+            "optimize": draw(st.sampled_from([None, None, "optimize", "compile"])), "cut": cut}
 
 
 def check_meas(ctx, case):
@@ -375,11 +397,31 @@ def check_meas(ctx, case):
     with warnings.catch_warnings():
         warnings.simplefilter("ignore")
         try:
-            prog = build_symbolic(n, list(case["pre"]) + steps)
             backend = "bosonic" if target == "bosonic" else "gaussian"
-            run_prog = prog if target == "default" else prog.compile(compiler=target)
+            cut = case.get("cut")
+            opt = case.get("optimize")
+            if cut is not None and backend == "bosonic":
+                cut = None  # F10 (open): the bosonic engine restarts per program; a single program is run there
+            if cut is not None:
+                labels.append("two_segments")
+            if opt:
+                labels.append("optimised_measured")
+
+            def prepare(pr):
+                if opt == "optimize":
+                    pr = pr.optimize()
+                if opt == "compile":
+                    return pr.compile(compiler=target if target != "default" else backend, optimize=True)
+                return pr if target == "default" else pr.compile(compiler=target)
+
             np.random.seed(3)
-            res = sf.Engine(backend).run(run_prog)
+            eng = sf.Engine(backend)
+            if cut is None:
+                res = eng.run(prepare(build_symbolic(n, list(case["pre"]) + steps)))
+            else:
+                p1 = build_symbolic(n, list(case["pre"]) + steps[:cut])
+                eng.run(prepare(p1))
+                res = eng.run(prepare(build_symbolic(n, steps[cut:], parent=p1)))
         except ParameterError as exc:
             ctx.note(case, True, labels)
             if early:
